@@ -42,6 +42,13 @@ def monitor(impl: str, name: str, cfg, obs: List[Dict[str, Any]], vb: VB, wit, s
                     vb.add(f"C13/machine/{impl}/halted-ticks-lag-behind-running-ticks/{tname}", f"{impl} {name}: step {k} (halted): counter "
                            f"{a['cycles']}->{b['cycles']} but the next {tname} target is {b[key]}; while running this machine always leaves "
                            f"the target beyond the counter", wit)
+        elif judged(a, b) and a["power"] == "running" and b["power"] == "running":
+            # the same self-consistency for every executed instruction (WAIT burns several cycles in one step): a machine that, on a
+            # NOP loop with these timers, has always ticked up to the new counter value must not leave a boundary behind here
+            for tname, key in (("mti", "next_mti"), ("sti", "next_sti")):
+                if strict[key] and b[key] <= b["cycles"]:
+                    vb.add(f"C13/machine/{impl}/step-leaves-boundary-unticked/{tname}", f"{impl} {name}: step {k}: counter {a['cycles']}->{b['cycles']} "
+                           f"but the next {tname} target is still {b[key]}; on a NOP loop this machine always leaves the target beyond the counter", wit)
     for k, o in enumerate(obs):
         c1 = o["cycles"]
         isr = o["imem"][0xFC]
